@@ -19,5 +19,8 @@ meta = {
     "ran": f"tools/seedcheck.sh <seed> {caught.replace(',', ' ')} (git -C /repo apply patch.diff; ./check <id>; git -C /repo checkout -- .)",
     "detected_by": [] if caught == "none" else caught.split(","),
 }
+if os.environ.get("SEED_BASE"):
+    meta["base_commit"] = os.environ["SEED_BASE"]
+    meta["base_note"] = "the patch no longer applies to /repo HEAD because a later fix: commit rewrote the same lines; it is checked against this commit"
 json.dump(meta, open(os.path.join(dst, "meta.json"), "w"), indent=1)
 print("saved", dst)
